@@ -90,11 +90,14 @@ func (m *Matcher) Loop() {
 		cacheCleared := false
 		if request.sort != m.sort || request.revision != m.revision {
 			m.sort = request.sort
-			m.revision = request.revision
-			m.mergerCache = make(map[string]*Merger)
-			if !request.revision.compatible(m.revision) {
+			if request.revision != m.revision {
+				// No scan is running at this point. Drop what the workers of a
+				// superseded scan may have added for the previous revision
+				// after the caches were cleared on the other side.
 				m.cache.Clear()
+				m.revision = request.revision
 			}
+			m.mergerCache = make(map[string]*Merger)
 			cacheCleared = true
 		}
 
